@@ -2,6 +2,7 @@ import Lean.Data.Json
 import PW.Spec
 import PW.Ops
 import PW.EinsumGen
+import PW.Interp
 /-!
 # JSON-lines driver for the executable model (compiled as `pwdriver`, Mathlib-free)
 
@@ -34,6 +35,30 @@ def natList (j : Json) : Except String (List Nat) := do
   a.toList.mapM fun x => x.getNat?
 
 def getF (j : Json) (k : String) : Except String Float := do ofBitsJ (← j.getObjVal? k)
+
+partial def exprOfJson (j : Json) : Except String Interp.Expr := do
+  match j.getObjVal? "num" with
+  | .ok v => do
+      let a ← v.getArr?
+      pure (.num ⟨← ofBitsJ a[0]!, ← ofBitsJ a[1]!⟩)
+  | .error _ =>
+  match j.getObjVal? "mat" with
+  | .ok v => do
+      let n ← (← v.getObjVal? "n").getNat?
+      let a ← cfArrOfJson v
+      pure (.mat ⟨n, a⟩)
+  | .error _ =>
+  match j.getObjVal? "name" with
+  | .ok v => do pure (.name (← v.getStr?))
+  | .error _ => do
+      let h ← (← j.getObjVal? "node").getStr?
+      let args ← (← j.getObjVal? "args").getArr?
+      let es ← args.toList.mapM exprOfJson
+      pure (.node h es)
+
+def valToJson : Interp.Val → Json
+  | .num z => Json.mkObj [("num", Json.arr #[fbits z.re, fbits z.im])]
+  | .mat m => Json.mkObj [("mat", Json.mkObj [("n", toJson m.n), ("re", Json.arr (m.a.map fun z => fbits z.re)), ("im", Json.arr (m.a.map fun z => fbits z.im))])]
 
 /-- the spec machine state -/
 structure Core where
@@ -209,6 +234,12 @@ def step (s : St) (j : Json) : Except String (St × Json) := do
       let nd := s.dims.eraseIdx p
       let t := Spec.reduceTo s.dims T s.fn
       pure ({ s with ids := s.ids.eraseIdx p, dims := nd, rho := toFlat (nd ++ nd) t }, ok [])
+  | "set" => do
+      let ids ← natList (← j.getObjVal? "ids")
+      let dims ← natList (← j.getObjVal? "dims")
+      let a ← cfArrOfJson (← j.getObjVal? "rho")
+      if a.size ≠ dims.prod * dims.prod then throw "set: size mismatch"
+      pure ({ s with ids := ids, dims := dims, rho := a }, ok [])
   | "povm_probs" => do
       let (T, dT) ← targetsOf s j
       let arr ← (← j.getObjVal? "ops").getArr?
@@ -246,6 +277,19 @@ def step (s : St) (j : Json) : Except String (St × Json) := do
         | "measure_matrix" => pure (measureMatrix n ops)
         | _ => throw s!"unknown einsum generator {fn}"
       pure (s, ok [("s", Json.str (render plan))])
+  | "interp" => do
+      let e ← exprOfJson (← j.getObjVal? "expr")
+      let cj ← (← j.getObjVal? "ctx").getObj?
+      let mut table : List (String × Interp.Val) := []
+      for (k, v) in cj.toList do
+        match ← exprOfJson v with
+        | .num z => table := (k, .num z) :: table
+        | .mat m => table := (k, .mat m) :: table
+        | _ => throw "context entries must be values"
+      let ctx : Interp.Ctx := fun nm => (table.find? (·.1 == nm)).map (·.2)
+      match Interp.eval ctx e with
+      | .ok v => pure (s, ok [("val", valToJson v)])
+      | .error msg => pure (s, ok [("err", Json.str msg)])
   | "canon" => do
       let str ← (← j.getObjVal? "s").getStr?
       match parsePlan str with
